@@ -17,7 +17,7 @@ def loop_steps_with_other_setups(log):
     from snaxc.dialects import accfg
     from xdsl.dialects import scf
     hits = 0
-    for (name, path, before, after) in log:
+    for (name, path, before, after, *_rest) in log:
         if name != "LoopLevelSetupAwaitOverlapPattern":
             continue
         mod = snaxrun.parse(before)
@@ -87,12 +87,12 @@ class C06(Prop):
         except Exception as e:
             return {"invalid_input": type(e).__name__}
         pre, log, out = self._run(case)
-        irs = [pre] + [a for (_, _, _, a) in log]
+        irs = [pre] + [a for (_, _, _, a, *_r) in log]
         progs = []
         for t in irs:
             _, _, c = convert(t)
             progs.append({"prog": c.program(), "points": ac.real_inference_at_points(c)})
-        kinds = sorted({n.replace("SetupAwaitOverlapPattern", "") for (n, _, _, _) in log})
+        kinds = sorted({n.replace("SetupAwaitOverlapPattern", "") for (n, *_r) in log})
         return {"progs": progs, "n_steps": len(log), "kinds": kinds, "d26_steps": loop_steps_with_other_setups(log)}
 
     def requests(self, case, impl_out):
